@@ -71,11 +71,13 @@ theorem C11_dependency_order (w : World) (t : Nat) (cl chain : List Nat)
 
 /-! ## exactly the closure runs -/
 
-/-- the full claim (single level): a pull that returns has executed exactly the chain -/
+/-- the full claim (single level): a pull that returns has executed exactly the chain — those
+members of it, that is, whose cache did not answer (`executed`; with caching off: all of it) -/
 def ExactStatement (cfg : Cfg) : Prop :=
   ∀ (w : World) (t : Nat) (obs : Nat → List Nat × List Nat) (fuel : Nat),
     WF w → (obs t).2.length + 1 ≤ fuel →
-    (pull cfg w t false obs fuel).2 = .ok → (pull cfg w t false obs fuel).1.log = w.log ++ (obs t).2
+    (pull cfg w t false obs fuel).2 = .ok →
+      (pull cfg w t false obs fuel).1.log = w.log ++ executed w.hit (obs t).2
 
 /-- General form. Under the level hypothesis (trivially true of the repaired variant) a pull never
 runs out of fuel, executes a prefix of "chain without the target, then the target", nothing that
@@ -85,7 +87,7 @@ theorem C11_exact (cfg : Cfg) (w : World) (t : Nat) (obs : Nat → List Nat × L
     (hwf : WF w) (hyp : LevelHyp cfg w t) (hfuel : (obs t).2.length + 1 ≤ fuel) :
     (pull cfg w t false obs fuel).2 ≠ .stuck ∧
       ∃ pre, pre <+: (obs t).2.dropLast ++ [t] ∧
-        (pull cfg w t false obs fuel).1.log = w.log ++ pre ∧
+        (pull cfg w t false obs fuel).1.log = w.log ++ executed w.hit pre ∧
         (∀ x ∈ pre, Reach w.deps t x) ∧
         ((pull cfg w t false obs fuel).2 = .ok → pre = (obs t).2) := by
   obtain ⟨hns, pre, hp, hlog, hok, hmem⟩ := pull_log cfg w t false obs fuel hwf.gwf hwf.noSelfParent
@@ -125,7 +127,7 @@ theorem C11_exact_partial (w : World) (t : Nat) (obs : Nat → List Nat × List 
     (hwf : WF w) (h1 : ClosureEmitsOnlyRan w t) (h2 : DriverSilent w t)
     (hfuel : (obs t).2.length + 1 ≤ fuel)
     (hok : (pull Cfg.pinned w t false obs fuel).2 = .ok) :
-    (pull Cfg.pinned w t false obs fuel).1.log = w.log ++ (obs t).2 := by
+    (pull Cfg.pinned w t false obs fuel).1.log = w.log ++ executed w.hit (obs t).2 := by
   obtain ⟨_, pre, _, hlog, _, hfull⟩ := C11_exact Cfg.pinned w t obs fuel hwf ⟨Or.inr h1, Or.inr h2⟩ hfuel
   rw [hlog, hfull hok]
 
@@ -236,6 +238,68 @@ example : (pull Cfg.pinned exFail 2 false exObs 10).2 = .failed ∧
     (pull Cfg.pinned exFail 2 false exObs 10).1.g.conns (ch 0 2) = [ch 2 0, ch 1 1] ∧
     exFail.g.conns (ch 0 2) = [ch 1 1, ch 2 0] := by decide
 
+/-- the full claim about firing order: every connection *list* is literally as before -/
+def OrderedStatement (cfg : Cfg) : Prop :=
+  ∀ (w : World) (t : Nat) (parents : Bool) (obs : Nat → List Nat × List Nat) (fuel : Nat),
+    WF w → (pull cfg w t parents obs fuel).1.g.conns = w.g.conns
+
+/-- when the `finally` block assigns the remembered lists back (repair `restoreLists`), the signal
+graph after a pull — any outcome, with or without parent scopes — is equal to the one before,
+order included (index 0 of a list fires first) -/
+theorem C11_restored_ordered (cfg : Cfg) (hr : cfg.restoreLists = true) : OrderedStatement cfg :=
+  fun w t parents obs fuel hwf => pull_conns_eq cfg w t parents obs fuel hwf.gwf hr
+
+theorem C11_restored_ordered_repaired : OrderedStatement Cfg.repaired := C11_restored_ordered _ rfl
+
+/-- `a = 0` with `a >> c`, `a >> d`, `a >> b` (made in this order) and data `a → b`; `b = 1` is pulled -/
+def exOrder : World :=
+  { world0 with n := 4, g := mkG [(ch 2 0, ch 0 2), (ch 3 0, ch 0 2), (ch 1 0, ch 0 2)],
+                deps := fun i => if i = 1 then [0] else [] }
+
+theorem exOrder_wf : WF exOrder := ⟨mkG_gwf _, fun _ => by simp [exOrder, world0]⟩
+
+/-- re-connecting the remembered pairs prepends them: as pinned — and with the three earlier
+repairs only — a pull reverses the firing order of `a.ran` (sets equal, `C11_restored`) -/
+theorem C11_order_witness :
+    exOrder.g.conns (ch 0 2) = [ch 1 0, ch 3 0, ch 2 0] ∧
+      (pull Cfg.pinned exOrder 1 false exIfObs 10).1.g.conns (ch 0 2) = [ch 2 0, ch 3 0, ch 1 0] ∧
+      (pull { Cfg.repaired with restoreLists := false } exOrder 1 false exIfObs 10).1.g.conns (ch 0 2)
+        = [ch 2 0, ch 3 0, ch 1 0] ∧
+      (pull Cfg.repaired exOrder 1 false exIfObs 10).1.g.conns (ch 0 2) = [ch 1 0, ch 3 0, ch 2 0] ∧
+      ¬ OrderedStatement Cfg.pinned ∧ ¬ OrderedStatement { Cfg.repaired with restoreLists := false } := by
+  refine ⟨by decide, by decide, by decide, by decide, ?_, ?_⟩
+  · intro h
+    have := congrFun (h exOrder 1 false exIfObs 10 exOrder_wf) (ch 0 2)
+    revert this; decide
+  · intro h
+    have := congrFun (h exOrder 1 false exIfObs 10 exOrder_wf) (ch 0 2)
+    revert this; decide
+
+/-! ## stale or foreign `running` flags, cache hits -/
+
+/-- a target that is itself `running` is refused (after its upstream has been run: the readiness
+check comes last); by `C11_restored` the graph is as before -/
+theorem C11_running_target_refused (cfg : Cfg) (w : World) (t : Nat) (parents : Bool)
+    (obs : Nat → List Nat × List Nat) (fuel : Nat) (hwf : WF w) (hrun : w.running t = true) :
+    (pull cfg w t parents obs fuel).2 ≠ .ok := by
+  rw [pull_eq]
+  have hs := upstreamLevels_same cfg obs fuel (pullLevels w t parents) w hwf.gwf
+  cases hu : upstreamLevels cfg obs fuel w (pullLevels w t parents) with
+  | mk w' o =>
+    rw [hu] at hs
+    have hr' : w'.running t = true := by
+      have := hs.running; dsimp only at this; rw [this]; exact hrun
+    cases o <;> simp [runTarget, hr']
+
+/-- node `1` of the chain `0 → 1 → 2` answers from its cache: it is not executed, its neighbours are -/
+example : (pull Cfg.repaired { exChain with hit := fun i => i = 1 } 2 false exObs 10).2 = .ok ∧
+    (pull Cfg.repaired { exChain with hit := fun i => i = 1 } 2 false exObs 10).1.log = [0, 2] := by decide
+/-- node `1` carries a `running` flag: the run stops there, the graph is put back -/
+example : (pull Cfg.repaired { exChain with running := fun i => i = 1 } 2 false exObs 10).2 = .failed ∧
+    (pull Cfg.repaired { exChain with running := fun i => i = 1 } 2 false exObs 10).1.log = [0] ∧
+    (pull Cfg.repaired { exChain with running := fun i => i = 1 } 2 false exObs 10).1.g.conns (ch 0 2)
+      = exChain.g.conns (ch 0 2) := by decide
+
 /-- refused pulls (cyclic data, executor present) return the very same world -/
 theorem C11_refused_unchanged (cfg : Cfg) (w : World) (t : Nat) (obs : Nat → List Nat × List Nat)
     (fuel : Nat)
@@ -281,7 +345,7 @@ theorem C11_parents (cfg : Cfg) (w : World) (t : Nat) (obs : Nat → List Nat ×
     (hfuel : ∀ a ∈ pullLevels w t true, (obs a).2.length + 1 ≤ fuel) :
     (pull cfg w t true obs fuel).2 ≠ .stuck ∧
       ∃ pre, pre <+: (pullLevels w t true).flatMap (fun a => (obs a).2.dropLast) ++ [t] ∧
-        (pull cfg w t true obs fuel).1.log = w.log ++ pre ∧
+        (pull cfg w t true obs fuel).1.log = w.log ++ executed w.hit pre ∧
         (∀ x ∈ pre, x = t ∨ ∃ a ∈ pullLevels w t true, Reach w.deps a x) ∧
         ((pull cfg w t true obs fuel).2 = .ok →
           pre = (pullLevels w t true).flatMap (fun a => (obs a).2.dropLast) ++ [t]) := by
@@ -293,10 +357,10 @@ theorem C11_parents_repaired (w : World) (t : Nat) (obs : Nat → List Nat × Li
     (hwf : WF w) (hfuel : ∀ a ∈ pullLevels w t true, (obs a).2.length + 1 ≤ fuel)
     (hok : (pull Cfg.repaired w t true obs fuel).2 = .ok) :
     (pull Cfg.repaired w t true obs fuel).1.log =
-      w.log ++ (pullLevels w t true).flatMap (fun a => (obs a).2.dropLast) ++ [t] := by
+      w.log ++ executed w.hit ((pullLevels w t true).flatMap (fun a => (obs a).2.dropLast) ++ [t]) := by
   obtain ⟨_, pre, _, hlog, _, hfull⟩ := C11_parents Cfg.repaired w t obs fuel hwf
     (fun _ _ => ⟨Or.inl rfl, Or.inl rfl⟩) hfuel
-  rw [hlog, hfull hok, List.append_assoc]
+  rw [hlog, hfull hok]
 
 /-- a workflow `0` holding `2 → 1` where `1` is a macro holding `4 → 3`; `1.ran` is wired to the
 accumulating run input of a third child `5` of the workflow -/
@@ -330,6 +394,10 @@ end PwVerif.C11
 #print axioms PwVerif.C11.C11_failed_signal_witness
 #print axioms PwVerif.C11.C11_parent_emits_witness
 #print axioms PwVerif.C11.C11_restored
+#print axioms PwVerif.C11.C11_restored_ordered
+#print axioms PwVerif.C11.C11_restored_ordered_repaired
+#print axioms PwVerif.C11.C11_order_witness
+#print axioms PwVerif.C11.C11_running_target_refused
 #print axioms PwVerif.C11.C11_refused_unchanged
 #print axioms PwVerif.C11.C11_automate_restored
 #print axioms PwVerif.C11.C11_automate_witness
